@@ -50,7 +50,8 @@ MonInit ==
     slow |-> {},         \* clients that stopped reading at some point: "by the end of the iteration" means nothing for them
     slowenv |-> FALSE,   \* a scenario with a real (wall-clock) request timeout ran on a machine too slow for its timing to mean anything
     topoSeen |-> FALSE,  \* the scenario changes the cluster's description (the slot table is then not the static one)
-    role |-> "", base |-> [nlog |-> <<>>, got |-> <<>>, cst |-> <<>>] ]   \* C08: outcome of the unsegmented twin
+    envbad |-> FALSE,    \* the machine, not the proxy, disturbed the scenario (a connect timed out, bytes took seconds to arrive): its outcome says nothing about segmentation
+    role |-> "", base |-> [nlog |-> <<>>, got |-> <<>>, cst |-> <<>>], baseok |-> TRUE ]   \* C08: outcome of the unsegmented twin
 
 Sent(m, c) == At(m.sent, c, <<>>)
 Got(m, c)  == At(m.got, c, <<>>)
@@ -274,13 +275,13 @@ RecvViol(m, e, f) ==
 AddViol(m, vs) == [m EXCEPT !.viol = @ \cup vs]
 
 MonApply(m, e) ==
-  CASE e.ev = "begin" -> [MonInit EXCEPT !.base = m.base, !.role = e.k]
+  CASE e.ev = "begin" -> [MonInit EXCEPT !.base = m.base, !.baseok = m.baseok, !.role = e.k]
     [] e.ev = "end" ->
          \* C08: a segmented run must have the same outcome as its unsegmented twin (the trace just before it)
          LET sum == [nlog |-> [n \in DOMAIN m.nlog |-> {<<m.nlog[n][x].k, m.nlog[n][x].c, m.nlog[n][x].i, m.nlog[n][x].s>> : x \in DOMAIN m.nlog[n]}],
                      got |-> m.got, cst |-> m.cst]
-         IN IF m.role = "base" THEN [m EXCEPT !.base = sum]
-            ELSE IF m.role = "seg" /\ sum # m.base THEN AddViol(m, {<<"C08", "", 0, "segmentation-changes-outcome">>})
+         IN IF m.role = "base" THEN [m EXCEPT !.base = sum, !.baseok = ~m.envbad]
+            ELSE IF m.role = "seg" /\ m.baseok /\ ~m.envbad /\ sum # m.base THEN AddViol(m, {<<"C08", "", 0, "segmentation-changes-outcome">>})
             ELSE m
     [] e.ev = "send" ->
          [m EXCEPT !.sent = Put(@, e.c, Append(Sent(m, e.c), [k |-> e.k, slots |-> e.slots, dups |-> e.dups]))]
@@ -376,7 +377,8 @@ MonApply(m, e) ==
     [] e.ev = "pause" -> [m EXCEPT !.slow = @ \cup {e.c}]
     \* a connect to a node failed (the node is down, or the machine so overloaded that the connect timed out): from here
     \* on an error reply may be the environment's doing
-    [] e.ev = "envfault" -> [m EXCEPT !.connLost = TRUE]
+    [] e.ev = "envfault" -> [m EXCEPT !.connLost = TRUE, !.envbad = TRUE]
+    [] e.ev = "envlate" -> [m EXCEPT !.envbad = TRUE]
     [] e.ev = "slowenv" -> [m EXCEPT !.slowenv = TRUE]
     [] e.ev = "dead" -> [m EXCEPT !.dead = TRUE, !.viol = @ \cup {<<"DEAD", "", 0, "proxy-died">>}]
     [] OTHER -> m
